@@ -61,7 +61,9 @@ const (
 func (m MsgTestAward) Route() string { return vhookRoute }
 func (m MsgTestAward) Type() string  { return "test_award" }
 func (m MsgTestAward) ValidateBasic() sdk.Error {
-	if m.From.Empty() || m.To.Empty() || m.Amount.IsNegative() {
+	// the recipient may be any address, the empty one included: Keeper.AwardCoinsTo is an API for other modules and
+	// takes whatever address it is given
+	if m.From.Empty() || m.Amount.IsNegative() {
 		return sdk.ErrUnknownRequest("bad award")
 	}
 	return nil
